@@ -21,30 +21,32 @@ structure FlipRun (x xF : MC.Input) : Prop where
   gminR : gminOf (swapInput xF) = gminOf (swapInput x)
   gmaxR : gmaxOf (swapInput xF) = gmaxOf (swapInput x)
 
-/-- **Vertical flip of the run of the models.**  `out` is the result of the composed run (matching cost, criteria
-    flags, winner-takes-all, refinement, median filter, the same chain on the swapped pair, cross-checking) on the
-    pair `x`, `outF` the result on the pair listed bottom-up: every pixel `(r, c)` gets in the flipped run the flag
-    word and confidence cell pixel `(rows - 1 - r, c)` gets in the run.  The matching-cost window is odd (`Shape`), the
-    median filter is odd (`MedianOK`); both runs return and satisfy C07's hypothesis. -/
-theorem run_flip (K K' : RunCfg) (V : CrossCheck.Variant) (CP : CrossCheck.Params) (x xF : MC.Input)
+/-- **Vertical flip of a run with aggregation**: `agg`, `agg'` are the aggregation steps of the two chains (local
+    steps that commute with the flip), `R`, `R'` (`RF`, `RF'`) the cost rows their cost stages compute for the pair and
+    the swapped pair (for the pair listed bottom-up). -/
+theorem runR_flip (K K' : RunCfg) (V : CrossCheck.Variant) (CP : CrossCheck.Params) (x xF : MC.Input)
     (hf : FlipRun x xF) (ok : RunOK K K' x) (okF : RunOK K K' xF)
+    {agg agg' : AggStep} (hAe : Equivariant agg) (hA : VFlipOn agg) (hAe' : Equivariant agg') (hA' : VFlipOn agg')
+    {R R' RF RF' : Nat → Nat → List Val}
+    (hR : CostRows K x agg R) (hR' : CostRows K' (swapInput x) agg' R')
+    (hRF : CostRows K xF agg RF) (hRF' : CostRows K' (swapInput xF) agg' RF')
     (out outF : Nat → Nat → CrossCheck.PixOut)
-    (hout : fullRun K K' V CP x = some out) (houtF : fullRun K K' V CP xF = some outF)
-    (hin : ∀ A, afterFilter K x = some A → LeftInInterval CP x.L.rows x.L.cols A)
-    (hinF : ∀ A, afterFilter K xF = some A → LeftInInterval CP xF.L.rows xF.L.cols A)
+    (hout : fullRunR K K' V CP x R R' = some out) (houtF : fullRunR K K' V CP xF RF RF' = some outF)
+    (hin : ∀ A, afterFilterR K x R = some A → LeftInInterval CP x.L.rows x.L.cols A)
+    (hinF : ∀ A, afterFilterR K xF RF = some A → LeftInInterval CP xF.L.rows xF.L.cols A)
     (r c : Nat) (hr : r < x.L.rows) (hc : c < x.L.cols) :
     outF r c = out (x.L.rows - 1 - r) c := by
-  have h1 := fullRun_is_ccStage K K' V CP xF okF outF houtF hinF
-  have h2 := fullRun_is_ccStage K K' V CP x ok out hout hin
+  have h1 := fullRunR_is_ccStage K K' V CP xF okF hRF hRF' outF houtF hinF
+  have h2 := fullRunR_is_ccStage K K' V CP x ok hR hR' out hout hin
   rw [cfgOf_congr K hf.params hf.gmin hf.gmax,
     cfgOf_congr K' (paramsOf_swap_congr hf.params) hf.gminR hf.gmaxR, hf.rows, hf.cols] at h1
   have h4 : toImg x.L.rows x.L.cols (mcScene xF) = toImg x.L.rows x.L.cols (flipArr x.L.rows (mcScene x)) :=
     toImg_congr _ _ _ _ hf.scene
-  have h3 := pipeline_flip_flags (cfgOf K x) noAgg_equivariant noAgg_vflip.toOn K.doRefine K.doMedian
+  have h3 := pipeline_flip_flags (cfgOf K x) hAe hA K.doRefine K.doMedian
     (fun h => (ok.med h).odd)
-    (rightDisp_equivariant (cfgOf K' (swapInput x)) noAgg_equivariant
+    (rightDisp_equivariant (cfgOf K' (swapInput x)) hAe'
       (flagStep_equivariant (cfgOf K' (swapInput x)).mc _ _ _) K'.doRefine K'.doMedian)
-    (rightDisp_vflip (cfgOf K' (swapInput x)) noAgg_vflip.toOn (pipeFlags_vflip _) K'.doRefine K'.doMedian
+    (rightDisp_vflip (cfgOf K' (swapInput x)) hA' (pipeFlags_vflip _) K'.doRefine K'.doMedian
       (fun h => (ok.medR h).odd))
     V CP x.L.rows x.L.cols (mcScene x) ((r : Int), (c : Int))
   rw [← h4] at h3
@@ -58,6 +60,24 @@ theorem run_flip (K K' : RunCfg) (V : CrossCheck.Variant) (CP : CrossCheck.Param
     · rfl
   rw [e, toImg_some _ _ _ (x.L.rows - 1 - r) c (by omega) hc] at h3'
   exact Option.some.inj h3'
+
+/-- **Vertical flip of the run of the models.**  `out` is the result of the composed run (matching cost, criteria
+    flags, winner-takes-all, refinement, median filter, the same chain on the swapped pair, cross-checking) on the
+    pair `x`, `outF` the result on the pair listed bottom-up: every pixel `(r, c)` gets in the flipped run the flag
+    word and confidence cell pixel `(rows - 1 - r, c)` gets in the run.  The matching-cost window is odd (`Shape`), the
+    median filter is odd (`MedianOK`); both runs return and satisfy C07's hypothesis. -/
+theorem run_flip (K K' : RunCfg) (V : CrossCheck.Variant) (CP : CrossCheck.Params) (x xF : MC.Input)
+    (hf : FlipRun x xF) (ok : RunOK K K' x) (okF : RunOK K K' xF)
+    (out outF : Nat → Nat → CrossCheck.PixOut)
+    (hout : fullRun K K' V CP x = some out) (houtF : fullRun K K' V CP xF = some outF)
+    (hin : ∀ A, afterFilter K x = some A → LeftInInterval CP x.L.rows x.L.cols A)
+    (hinF : ∀ A, afterFilter K xF = some A → LeftInInterval CP xF.L.rows xF.L.cols A)
+    (r c : Nat) (hr : r < x.L.rows) (hc : c < x.L.cols) :
+    outF r c = out (x.L.rows - 1 - r) c :=
+  runR_flip K K' V CP x xF hf ok okF noAgg_equivariant noAgg_vflip.toOn noAgg_equivariant noAgg_vflip.toOn
+    (costStage_run K x ok.mc) (costStage_run K' (swapInput x) ok.mcR)
+    (costStage_run K xF okF.mc) (costStage_run K' (swapInput xF) okF.mcR)
+    out outF hout houtF hin hinF r c hr hc
 
 /-! ### Non-vacuity: the 3 × 9 pair of `C13Run.lean` and the same pair listed bottom-up -/
 
